@@ -6,7 +6,7 @@
    Keys.  memory.go keys its maps by the 16-byte UUID strings of the components (and by concatenations of two of
    them, which is injective because the width is fixed).  The model works on the pre-images of those UUIDs:
      subject key   = number of the node            (Node.UUID)
-     predicate key = (id number, None | Some ns)   (Predicate.UUID hashes id ++ "immutable" | id ++ varint(UnixNano):
+     predicate key = (id number, None | Some uns)  (Predicate.UUID hashes id ++ "immutable" | id ++ varint(UnixNano):
                                                     the zone of the anchor is NOT part of the identity)
      partial key   = id number                     (Predicate.PartialUUID)
      object key    = node | literal | predicate key
@@ -19,7 +19,10 @@ Import ListNotations.
 From BWStore Require Import AMap.
 
 (* ---------------------------------------------------------------- values *)
-Record time := { ns : Z; off : Z }.                       (* instant (UnixNano) and zone offset in seconds *)
+(* ns = the instant in nanoseconds since the Unix epoch (unbounded: Equal/Before/After/Sub compare instants);
+   off = zone offset in seconds; uns = Time.UnixNano() as Go computes it (the int64 that Predicate.UUID hashes):
+   equal to ns for instants between 1677-09-21 and 2262-04-11, wrapped outside (the harness supplies Go's value) *)
+Record time := { ns : Z; off : Z; uns : Z }.
 Record pred := { pid : N; panchor : option time }.        (* anchor = None: immutable *)
 Inductive obj := ONode (n : N) | OLit (n : N) | OPred (p : pred).
 Record triple := { tsub : N; tpred : pred; tobj : obj; trank : N }.
@@ -32,7 +35,7 @@ Definition pkey := (N * option Z)%type.
 Inductive okey := OKnode (n : N) | OKlit (n : N) | OKpred (k : pkey).
 Definition tkey := (N * pkey * okey)%type.
 
-Definition pkey_of (p : pred) : pkey := (pid p, option_map ns (panchor p)).
+Definition pkey_of (p : pred) : pkey := (pid p, option_map uns (panchor p)).
 Definition okey_of (o : obj) : okey :=
   match o with ONode n => OKnode n | OLit n => OKlit n | OPred p => OKpred (pkey_of p) end.
 Definition tkey_of (t : triple) : tkey := (tsub t, pkey_of (tpred t), okey_of (tobj t)).
